@@ -29,6 +29,13 @@ def gen_bursts(seed):
             else:
                 b = g.gen_sb(ts)
             out.append((list(b), ts.bt.name, ts.tsc, ts.tsc_set))
+        # structured payloads around the same training sequence (all zeros / all ones / alternating): what a detector keyed
+        # on "is there anything in the window" or on a neighbouring burst type's window gets wrong
+        o, n = {"NORMAL": (61, 26), "ACCESS": (8, 41), "SYNC": (42, 64)}[ts.bt.name]
+        for fill in ([0] * 148, [1] * 148, [k & 1 for k in range(148)]):
+            v = list(fill)
+            v[o:o + n] = list(ts.seq)
+            out.append((v, ts.bt.name, ts.tsc, ts.tsc_set))
     out.append((list(g.gen_fb()), "FREQ", None, None))
     out.append((list(g.gen_db()), "DUMMY", None, None))
     return out
